@@ -5,12 +5,12 @@ import (
 )
 
 // absolutize rewrites a quantified formula so that an integer bound variable v that is used as a
-// slice index relative to one offset term X (every index occurrence has the shape "(+ X v)") ranges
-// over absolute positions instead: "(+ X v)" becomes "v" and every other occurrence of v becomes
+// slice index relative to one offset term X (every index occurrence has the shape "(idx X v)") ranges
+// over absolute positions instead: "(idx X v)" becomes "v" and every other occurrence of v becomes
 // "(- v X)". The formula is equivalent (v' = X + v is a bijection on Int) and its element terms no
 // longer contain arithmetic, which makes them usable as e-matching triggers.
 func absolutize(text string, v string) string {
-	type occ struct{ start, end int } // span of "(+ X v)"
+	type occ struct{ start, end int } // span of "(idx X v)"
 	var spans []occ
 	var offs []string
 	// find tokens equal to v
@@ -29,7 +29,7 @@ func absolutize(text string, v string) string {
 		if end < len(text) && !isDelim(text[end]) {
 			continue
 		}
-		// is it the last argument of "(+ X v)"?
+		// is it the last argument of "(idx X v)"?
 		if end < len(text) && text[end] == ')' && j > 0 && text[j-1] == ' ' {
 			// walk back to the matching '('
 			depth := 0
@@ -45,8 +45,8 @@ func absolutize(text string, v string) string {
 				}
 				k--
 			}
-			if k >= 0 && strings.HasPrefix(text[k:], "(+ ") {
-				x := strings.TrimSpace(text[k+3 : j-1])
+			if k >= 0 && strings.HasPrefix(text[k:], "(idx ") {
+				x := strings.TrimSpace(text[k+5 : j-1])
 				if x != "" && balancedSingle(x) {
 					spans = append(spans, occ{k, end + 1})
 					offs = append(offs, x)
